@@ -153,14 +153,23 @@ class KSession(object):
             self.extra.append(pow_entry(l, rr)); self.extra.append(pow_entry(l, rr - 1))
         if f == 'atan2':
             self.extra.append(pow_entry(l, 2)); self.extra.append(pow_entry(r, 2))
+        inplace = bool(getattr(self, 'inplace_next', False)) and f != 'atan2' and a[0] == 'ref'
+        self.inplace_next = False
         def th():
+            if inplace:
+                # augmented assignment on a second reference: `t = a; t op= b` must behave as `t = a op b` (a new object, `a` untouched)
+                import operator
+                t = va
+                return {'add': operator.iadd, 'sub': operator.isub, 'mul': operator.imul, 'div': operator.itruediv,
+                        'pow': operator.ipow}[f](t, vb)
             if f == 'add': return va + vb
             if f == 'sub': return va - vb
             if f == 'mul': return va * vb
             if f == 'div': return va / vb
             if f == 'pow': return va ** vb
             if f == 'atan2': return self.core.atan2(va, vb)
-        return self.record('(OpBin B_%s %s %s)' % (f, self._argterm(a), self._argterm(b)), ('bin', f, a, b), th)
+        if inplace: self.stats['inplace'] = self.stats.get('inplace', 0) + 1
+        return self.record('(OpBin B_%s %s %s)' % (f, self._argterm(a), self._argterm(b)), ('bin', f, a, b, 'inplace') if inplace else ('bin', f, a, b), th)
 
     def report(self, a, kind='budget'):
         """a reporting call (reporting.budget / components / repr) on slot a: the model says it has NO effect on any
@@ -273,7 +282,7 @@ def gen_program(rng, ctx_id, size=None, malformed=False, profile='mix'):
     UR = s.lib.UncertainReal
     size = size or rng.randint(8, 30)
     # scale of the declared uncertainties: usually 1, sometimes tiny (covariances ~1e-18 .. 1e-30 must still be exact)
-    us_ = 1.0 if rng.random() < 0.82 else 10.0 ** -rng.choice([6, 9, 12, 13, 15])
+    us_ = 1.0 if rng.random() < 0.82 else 10.0 ** -rng.choice([6, 9, 12, 13, 15, 17, 20, 30])
     s.uscale = us_
     W = PROFILES[profile]
     cum = [sum(W[:i + 1]) / sum(W) for i in range(len(W))]
@@ -343,6 +352,7 @@ def gen_program(rng, ctx_id, size=None, malformed=False, profile='mix'):
                 if not l > 0 and rng.random() < 0.8: f = 'mul'
                 elif abs(s._x(B)) > 6: f = 'add'
             if f == 'div' and s._x(B) == 0 and rng.random() < 0.8: f = 'sub'
+            s.inplace_next = rng.random() < 0.12
             s.bin(f, A, B)
         elif c < cum[2]:
             s.result(a, label=rng.choice([None, rng.randint(10, 19)]))
@@ -418,7 +428,9 @@ def run_pyops(pyops, ctx_id):
         elif k == 'constant': s.constant(op[1], label=op[2])
         elif k == 'multiple': s.multiple(op[1], op[2], op[3])
         elif k == 'un': s.un(op[1], op[2])
-        elif k == 'bin': s.bin(op[1], tuple(op[2]), tuple(op[3]))
+        elif k == 'bin':
+            s.inplace_next = (len(op) > 4 and op[4] == 'inplace')
+            s.bin(op[1], tuple(op[2]), tuple(op[3]))
         elif k == 'result': s.result(op[1], label=op[2])
         elif k == 'set_corr': s.set_corr(op[1], op[2], op[3])
         elif k == 'read': s.read(op[1], op[2])
@@ -559,7 +571,7 @@ def scenarios(rng, ctx0=5000):
     done(s)
     # S11: tiny uncertainties (covariances 1e-18 .. 1e-30): nothing may be thresholded to zero -- correlations of results,
     # sensitivity / component w.r.t. an intermediate of tiny uncertainty, dof
-    for sc in (1e-6, 1e-9, 1e-13, 1e-15):
+    for sc in (1e-6, 1e-9, 1e-13, 1e-15, 1e-17, 1e-24):
         s = new()
         s.ureal(_rv(rng), sc * _rv(rng, .5, 2), rng.choice([inf, 6.0]), indep=True)        # 0
         s.ureal(_rv(rng), sc * _rv(rng, .5, 2), inf, indep=False)                           # 1
@@ -618,6 +630,21 @@ def scenarios(rng, ctx0=5000):
         for a in ys[:3]:
             for b in ys[3:]:
                 s.get_corr(a, b); s.get_corr(b, a)
+        done(s)
+    # S15: dof read BEFORE a correlation is declared among finite-dof ensemble members, and again after (the dof is recomputed
+    # on every read: only the uncertainty is cached), for the same object and for a freshly built equal one; augmented assignment
+    for variant in range(2):
+        s = new()
+        s.multiple([_rv(rng) for _ in range(3)], [_rv(rng, .1, 1) for _ in range(3)], rng.choice([4.0, 7.5]))
+        s.ureal(_rv(rng), _rv(rng, .1, 1), 6.0, indep=True)
+        s.bin('mul', ('ref', 1), ('num', 2.0)); s.bin('add', ('ref', 0), ('ref', len(s.slots) - 1)); y = len(s.slots) - 1
+        if variant == 1: s.bin('add', ('ref', y), ('ref', 3)); y = len(s.slots) - 1
+        s.read('df', y); s.set_corr(round(rng.uniform(.2, .8), 2), 0, 1); s.read('df', y); s.set_corr(-0.25, 1, 2); s.read('df', y)
+        s.bin('mul', ('ref', 1), ('num', 2.0)); s.bin('add', ('ref', 0), ('ref', len(s.slots) - 1)); y2 = len(s.slots) - 1
+        if variant == 1: s.bin('add', ('ref', y2), ('ref', 3)); y2 = len(s.slots) - 1
+        s.read('df', y2); s.read('u', y2); s.read('df', y); s.read('u', y)
+        s.inplace_next = True; s.bin('add', ('ref', y2), ('num', 1.5)); r1 = len(s.slots) - 1; s.read('x', y2); s.read('x', r1)
+        s.inplace_next = True; s.bin('mul', ('ref', y2), ('ref', 3)); r2 = len(s.slots) - 1; s.read('x', y2); s.read('u', y2); s.read('u', r2)
         done(s)
     # S13: reporting calls (budget / components, with and without intermediates) between operations: they must not change
     # any number -- the operands are used again afterwards (merges with numbers having other influences) and re-budgeted
